@@ -544,7 +544,7 @@ func reapplyOverwrittenContainers(finalPod *corev1.Pod, originalPod *corev1.Pod,
 		}
 
 		overrides.Containers = append(overrides.Containers, overlay)
-		newMergedPod, err := applyContainer(finalPod, overlay)
+		newMergedPod, err := applyContainer(finalPod, withoutUnchangedPorts(overlay, FindContainer(overlay.Name, finalPod.Spec.Containers)))
 		if err != nil {
 			return nil, fmt.Errorf("failed to apply sidecar container: %v", err)
 		}
@@ -567,7 +567,7 @@ func reapplyOverwrittenContainers(finalPod *corev1.Pod, originalPod *corev1.Pod,
 		}
 
 		overrides.InitContainers = append(overrides.InitContainers, overlay)
-		newMergedPod, err := applyInitContainer(finalPod, overlay)
+		newMergedPod, err := applyInitContainer(finalPod, withoutUnchangedPorts(overlay, FindContainer(overlay.Name, finalPod.Spec.InitContainers)))
 		if err != nil {
 			return nil, fmt.Errorf("failed to apply sidecar init container: %v", err)
 		}
@@ -591,6 +591,16 @@ func reapplyOverwrittenContainers(finalPod *corev1.Pod, originalPod *corev1.Pod,
 	adjustInitContainerUser(finalPod, FindContainer(ProxyContainerName, overrides.AllContainers()), proxyConfig)
 
 	return finalPod, nil
+}
+
+// withoutUnchangedPorts drops the port list from an overlay when the target container already has exactly these
+// ports. Re-applying them would change nothing, except that the strategic merge key of ports is containerPort
+// alone: a container that exposes one port number for two protocols (53/UDP and 53/TCP) would lose one of them.
+func withoutUnchangedPorts(overlay corev1.Container, current *corev1.Container) corev1.Container {
+	if current != nil && len(overlay.Ports) > 0 && slices.Equal(current.Ports, overlay.Ports) {
+		overlay.Ports = nil
+	}
+	return overlay
 }
 
 // adjustInitContainerUser adjusts the RunAsUser/Group fields and iptables parameter "-u <uid>"
